@@ -23,8 +23,9 @@ import (
 func main() {
 	r := rep.Open()
 	defer r.Close()
-	r.Rule = "messages of all 27 kinds (boundary-dense fields, Twrite data up to 9000 bytes, Tread counts incl. 2^32-11..2^32-1) x msize in {24..64, frame-40..frame+40, 2^k+-1, 2^20} x live/cancelled/deadline-expired context. Non-trivial: every call; distinct by canonical text."
+	r.Rule = "messages of all 27 kinds (boundary-dense fields, Twrite data up to 9000 bytes, Tread counts incl. 2^32-11..2^32-1) x msize in {24..64, frame-40..frame+40, 2^k+-1, 2^20} x live/cancelled/deadline-expired context; sweeps: every Tread count in msize-41..msize+1 and every Twrite data length in msize-53..msize-11 for 38 msizes. Non-trivial: every call; distinct by canonical text."
 	rng := prng.New(r.Seed)
+	sweeps(r, rng)
 	per := r.N(10, 250)
 	for _, t := range wiregen.AllTypes {
 		for i := 0; i < r.N(6, 150); i++ {
@@ -54,6 +55,29 @@ func main() {
 					continue
 				}
 				one(r, rng, fc, msize, !rng.Chance(1, 12))
+			}
+		}
+	}
+}
+
+// sweeps: for the two messages the channel rewrites, EVERY count / data length in a window around the
+// point where the reply (Tread: msize-11) or the message itself (Twrite: msize-23) just fits, for
+// a set of msizes -- a fast path that is off by the 4-byte size header is wrong for four values only
+func sweeps(r *rep.Report, rng *prng.R) {
+	ms := []int{}
+	for m := 24; m <= 48; m++ {
+		ms = append(ms, m)
+	}
+	ms = append(ms, 64, 127, 128, 129, 255, 256, 257, 1024, 4096, 8192, 65535, 65536, 65537)
+	for _, msize := range ms {
+		for d := -30; d <= 12; d++ {
+			if c := msize - 11 + d; c >= 0 {
+				fc := &p9p.Fcall{Type: p9p.Tread, Tag: p9p.Tag(d + 100), Message: p9p.MessageTread{Fid: 1, Offset: uint64(c), Count: uint32(c)}}
+				one(r, rng, fc, msize, true)
+			}
+			if n := msize - 23 + d; n >= 0 && (r.Thorough() || msize <= 4096) {
+				fc := &p9p.Fcall{Type: p9p.Twrite, Tag: p9p.Tag(d + 200), Message: p9p.MessageTwrite{Fid: 2, Offset: 7, Data: rng.Bytes(n)}}
+				one(r, rng, fc, msize, true)
 			}
 		}
 	}
